@@ -499,6 +499,29 @@ struct Core {
         for (std::size_t j = 0; j < OD; ++j)
             bits[j] = to_bits(r[j]);
     }
+    static void swap_adl(void *a, void *b)
+    {
+        Sut s;
+        using std::swap;
+        swap(*static_cast<F *>(a), *static_cast<F *>(b));
+    }
+    static void *hold_view(const void *obj)
+    {
+        return new typename F::view_t(*static_cast<const F *>(obj));
+    }
+    static void release_view(void *view)
+    {
+        delete static_cast<typename F::view_t *>(view);
+    }
+    static void held_lookup(const void *view, const double *x, uint64_t *bits, bool scalar_form)
+    {
+        const auto &v = *static_cast<const typename F::view_t *>(view);
+        typename F::coordinate_t c = make_real_coord<typename F::coordinate_t>(x);
+        auto r = at_either(v, c, scalar_form);
+        constexpr std::size_t OD = B::covariant_output_t::dimensions;
+        for (std::size_t j = 0; j < OD; ++j)
+            bits[j] = to_bits(r[j]);
+    }
     static void lookup_va(const void *obj, const double *x, uint64_t *bits)
     {
         const F &f = *static_cast<const F *>(obj);
@@ -515,6 +538,12 @@ struct Core {
         o.has_core = true;
         if constexpr (has_scalar_at<typename F::view_t, typename F::coordinate_t>)
             o.lookup_va = &lookup_va;
+        if constexpr (!Tr::device) {
+            o.swap_adl = &swap_adl;
+            o.hold_view = &hold_view;
+            o.release_view = &release_view;
+            o.held_lookup = &held_lookup;
+        }
         o.obj_size = sizeof(F);
         o.obj_align = alignof(F);
         o.construct = &construct;
